@@ -55,6 +55,7 @@ TRUSTED = [
     "a 'return' profile event leaves frame.f_lasti at the instruction that returned, yielded or raised; a 'call' event "
     "leaves it at the RESUME instruction the frame (re)starts from",
     "return-like opcodes are the RETURN_* opcodes other than RETURN_GENERATOR",
+    "an exception thrown into a suspended generator/coroutine (throw, close) delivers a 'call' event with f_lasti still at the YIELD_VALUE",
 ]
 
 
@@ -99,6 +100,8 @@ def corpus_points() -> Tuple[List[Point], List[Point]]:
                 if ykind == "none":
                     raise AnalysisError("corpus: unexpected YIELD_VALUE")
                 ret.append(Point(src, code, i.offset, i.opname, ykind))
+                # throw()/close() into the suspended frame deliver a 'call' event at this very instruction
+                call.append(Point(src, code, i.offset, i.opname, "resume"))
             elif i.opname in ("RESUME",):
                 prev = ins[idx - 1].opname if idx else ""
                 if first_resume:
